@@ -1,5 +1,6 @@
 //! unit: u10b
-//! properties: C10 C03 C05 C09
+//! properties: C10 C03 C05 C09 C02
+//! note: also run for C02: the code it constrains lies inside mechanisms those properties name (a change made there for their sake must meet these clauses too)
 //! note: restart, rebuilding outbound payments from the monitors of closed channels (channelmanager.rs from_channel_manager_data): a payment part still pending in a closed channel's monitor is put back only for a non-empty path (an empty one fails the read); a part the monitor knows the preimage for is claimed with the completion action that releases THIS monitor's payment-complete update for THIS HTLC; when the claim was a duplicate and no queued event still carries that action, the monitor is told so by a ReleasePaymentComplete update numbered right after the last id given out for the channel (remembered), queued behind the earlier background events; an HTLC the monitor reports as failed on chain is failed with OnChainTimeout and the completion update of this monitor and HTLC
 //! trusted: R15 (deep slices of from_channel_manager_data): each slice carries the named statements verbatim as a function of the values in scope; the monitor is a skeleton answering its counterparty, funding outpoint and channel id; SentHTLCId::from_source is uninterpreted; the scan `pending_events.iter().any(|(_, act)| *act == compl_action)` is written as a loop with the predicate carried through a capture (R6 any), equality of completion actions through the wrapper action_eq (structural equality); the lookups of the peer state and of the channel's last update id (`.expect(..)`) are the parameter update_id
 //! trusted: R15 (deep slices, second batch): the branch for a channel without a monitor, the statements that decide whether a monitor without a channel is force-closed and which id is remembered for it, the force-close update built for it, the `and_modify` closure that merges the remembered id (second occurrence); monitors and channels are skeletons answering the accessors used
